@@ -319,7 +319,8 @@ func TestVerifC13RPC(t *testing.T) {
 			if !meta {
 				l = msgL()
 			}
-			if lo >= 2 && !verifkit.Thorough() {
+			// every round appends one entry: the loop is bounded explicitly (2 rounds quick, 8 thorough)
+			if lo >= verifkit.Pick(2, 8) {
 				break
 			}
 		}
